@@ -718,6 +718,9 @@ class Engine(ExprMixin, CallMixin):
             b.assume(hint(nsb))
         for kind, s3, pl in self.block(n.body, b):
             if kind in ('fall', 'continue'):
+                fe = self.hooks.get('for_iter_end')
+                if fe:
+                    fe(self, it, s3, n)          # ghost bookkeeping: this element has been visited
                 ns3 = NS(s3.env, self.entry_env, s3, self.entry_state)
                 for idx, inv in enumerate(L.invariant):
                     self.oblige(f"{tag}.inv{idx}.preserved", s3, inv(ns3), kind='inv-preserved')
